@@ -9,10 +9,15 @@ import Frp.Model.Wrapper
       cfg, ok := proxyCfgsMap[name]
       if !ok || !reflect.DeepEqual(pxy.Cfg, cfg) { delete(pm.proxies, name); pxy.Stop() } }
   for _, cfg := range proxyCfgs {                           -- add loop, in slice order
-      if _, ok := pm.proxies[name]; !ok { pxy := NewWrapper(cfg…); pm.proxies[name] = pxy; pxy.Start() } }
+      if _, ok := pm.proxies[name]; !ok {
+          cfg = proxyCfgsMap[name]                          -- added by fix eab68f8
+          pxy := NewWrapper(cfg…); pm.proxies[name] = pxy; pxy.Start() } }
   ```
-  Note the asymmetry the code has for duplicate names: the delete loop compares with the LAST
-  entry of a name, the add loop starts the FIRST one.
+  `updateAll` is the code as it is now (after fix eab68f8): delete loop and add loop both use
+  the LAST entry of a duplicated name.  `updateAllOld` is the code before that fix, where the add
+  loop started the FIRST entry while the delete loop compared with the LAST, so that every reload
+  of the same configuration restarted such a proxy (kept for `C19.reload_dup_witness`).
+  The visitor manager's UpdateAll still has the old shape (it is modelled in Engines/Client.lean).
 -/
 namespace Frp
 namespace Reconcile
@@ -35,7 +40,7 @@ def keeps (cfgs : List Cfg) (w : W) : Bool := lookupLast cfgs w.cfg.name == some
 
 def hasName (ws : List W) (n : Nat) : Bool := ws.any (fun w => w.cfg.name == n)
 
-/-- the add loop -/
+/-- the add loop BEFORE fix eab68f8 (each entry started as it stands in the slice) -/
 def addLoop (id now : Nat) : List W → List Cfg → List W × List (Nat × Msg)
   | ws, [] => (ws, [])
   | ws, c :: cs =>
@@ -52,9 +57,32 @@ def stopEvents (ws : List W) : List (Nat × Msg) :=
 /-- the stopped wrapper objects (no longer in the map; late callbacks may still reach them) -/
 def stopAll (ws : List W) : List W := ws.map (fun w => (step w .stop).1)
 
+/-- `cfg = proxyCfgsMap[name]` for an entry `c` of the slice (the key is always present) -/
+def sel (all : List Cfg) (c : Cfg) : Cfg :=
+  match lookupLast all c.name with
+  | some c' => c'
+  | none => c
+
+/-- the add loop as it is now: the wrapper is built from `proxyCfgsMap[name]` -/
+def addLoopNew (id now : Nat) (all : List Cfg) : List W → List Cfg → List W × List (Nat × Msg)
+  | ws, [] => (ws, [])
+  | ws, c :: cs =>
+    if hasName ws c.name then addLoopNew id now all ws cs
+    else
+      let r := start (mk (sel all c) id) now
+      let rest := addLoopNew id now all (ws ++ [r.1]) cs
+      (rest.1, r.2.map (fun m => (c.name, m)) ++ rest.2)
+
 /-- `UpdateAll(cfgs)` at time `now`: new manager, the stopped wrappers, the emitted messages
     tagged with the proxy name -/
 def updateAll (m : Mgr) (cfgs : List Cfg) (now : Nat) : Mgr × List W × List (Nat × Msg) :=
+  let kept := m.proxies.filter (keeps cfgs)
+  let gone := m.proxies.filter (fun w => !keeps cfgs w)
+  let r := addLoopNew m.nextId now cfgs kept cfgs
+  ({ proxies := r.1, nextId := m.nextId + 1 }, stopAll gone, stopEvents gone ++ r.2)
+
+/-- `UpdateAll` BEFORE fix eab68f8 -/
+def updateAllOld (m : Mgr) (cfgs : List Cfg) (now : Nat) : Mgr × List W × List (Nat × Msg) :=
   let kept := m.proxies.filter (keeps cfgs)
   let gone := m.proxies.filter (fun w => !keeps cfgs w)
   let r := addLoop m.nextId now kept cfgs
